@@ -304,4 +304,243 @@ theorem toPatList_strip (cfg : Cfg) (h0 : emitCapture cfg 0 (-1) = true) (X : TP
         simp only [stripList, toPatList, toPat_strip cfg h0 X c d b hc, toPatList_strip cfg h0 X cs d bs hl, List.map_cons]
 end
 
+/-! ## `stripTree` keeps the fragment and the well-formedness -/
+
+mutual
+theorem tier_le_ten : ∀ n : GoNode, tier n ≤ 10
+  | .empty => by simp [tier]
+  | .bare _ => by simp only [tier]; split <;> (try split) <;> omega
+  | .char _ _ _ _ => by simp [tier]
+  | .set _ _ _ => by simp [tier]
+  | .multi _ _ _ => by simp [tier]
+  | .ref _ _ _ => by simp only [tier]; split <;> omega
+  | .charloop _ _ _ _ _ _ => by simp only [tier]; split <;> omega
+  | .setloop _ _ _ _ _ _ => by simp only [tier]; split <;> omega
+  | .concat cs => by simp only [tier]; exact tierList_le_ten cs
+  | .alt cs => by simp only [tier]; exact tierList_le_ten cs
+  | .loop _ _ _ c => by have := tier_le_ten c; simp only [tier]; omega
+  | .capture _ _ c => by have := tier_le_ten c; simp only [tier]; split <;> omega
+  | .group c => by simp only [tier]; exact tier_le_ten c
+  | .poslook c => by have := tier_le_ten c; simp only [tier]; split <;> omega
+  | .neglook c => by have := tier_le_ten c; simp only [tier]; split <;> omega
+  | .atomic c => by have := tier_le_ten c; simp only [tier]; omega
+  | .backrefcond1 _ y => by have := tier_le_ten y; simp only [tier]; omega
+  | .backrefcond2 _ y n => by have := tier_le_ten y; have := tier_le_ten n; simp only [tier]; omega
+  | .exprcond2 c y => by have := tier_le_ten c; have := tier_le_ten y; simp only [tier]; omega
+  | .exprcond3 c y n => by
+    have := tier_le_ten c; have := tier_le_ten y; have := tier_le_ten n; simp only [tier]; omega
+  | .other _ => by simp [tier]
+theorem tierList_le_ten : ∀ cs : List GoNode, tierList cs ≤ 10
+  | [] => by simp [tierList]
+  | c :: cs => by have := tier_le_ten c; have := tierList_le_ten cs; simp only [tierList]; omega
+end
+
+mutual
+theorem tier_strip (cfg : Cfg) : ∀ n : GoNode, tier (stripTree cfg n) ≤ tier n
+  | .empty => Nat.le_refl _
+  | .bare _ => Nat.le_refl _
+  | .char _ _ _ _ => Nat.le_refl _
+  | .set _ _ _ => Nat.le_refl _
+  | .multi _ _ _ => Nat.le_refl _
+  | .ref _ _ _ => Nat.le_refl _
+  | .charloop _ _ _ _ _ _ => Nat.le_refl _
+  | .setloop _ _ _ _ _ _ => Nat.le_refl _
+  | .concat cs => by simp only [stripTree, tier]; exact tierList_strip cfg cs
+  | .alt cs => by simp only [stripTree, tier]; exact tierList_strip cfg cs
+  | .loop _ _ _ c => by have := tier_strip cfg c; simp only [stripTree, tier]; omega
+  | .capture m n c => by
+    have := tier_strip cfg c
+    have := tier_le_ten c
+    simp only [stripTree]
+    split
+    · simp only [tier]; split <;> omega
+    · simp only [tier]; split <;> omega
+  | .group c => by simp only [stripTree, tier]; exact tier_strip cfg c
+  | .poslook c => by
+    have := tier_strip cfg c
+    simp only [stripTree, tier, lookDir_strip]; split <;> omega
+  | .neglook c => by
+    have := tier_strip cfg c
+    simp only [stripTree, tier, lookDir_strip]; split <;> omega
+  | .atomic c => by have := tier_strip cfg c; simp only [stripTree, tier]; omega
+  | .backrefcond1 _ y => by have := tier_strip cfg y; simp only [stripTree, tier]; omega
+  | .backrefcond2 _ y n => by
+    have := tier_strip cfg y; have := tier_strip cfg n; simp only [stripTree, tier]; omega
+  | .exprcond2 c y => by
+    have := tier_strip cfg c; have := tier_strip cfg y; simp only [stripTree, tier]; omega
+  | .exprcond3 c y n => by
+    have := tier_strip cfg c; have := tier_strip cfg y; have := tier_strip cfg n; simp only [stripTree, tier]; omega
+  | .other _ => Nat.le_refl _
+theorem tierList_strip (cfg : Cfg) : ∀ cs : List GoNode, tierList (stripList cfg cs) ≤ tierList cs
+  | [] => Nat.le_refl _
+  | c :: cs => by
+    have := tier_strip cfg c; have := tierList_strip cfg cs; simp only [stripList, tierList]; omega
+end
+
+mutual
+theorem ok_strip (cfg : Cfg) : ∀ n : GoNode, (stripTree cfg n).ok = n.ok
+  | .empty => rfl
+  | .bare _ => rfl
+  | .char _ _ _ _ => rfl
+  | .set _ _ _ => rfl
+  | .multi _ _ _ => rfl
+  | .ref _ _ _ => rfl
+  | .charloop _ _ _ _ _ _ => rfl
+  | .setloop _ _ _ _ _ _ => rfl
+  | .concat cs => by simp only [stripTree, GoNode.ok, stripList_isEmpty, okList_strip cfg cs]
+  | .alt cs => by simp only [stripTree, GoNode.ok, stripList_isEmpty, okList_strip cfg cs]
+  | .loop _ _ _ c => by simp only [stripTree, GoNode.ok, ok_strip cfg c]
+  | .capture m n c => by simp only [stripTree]; split <;> simp only [GoNode.ok, ok_strip cfg c]
+  | .group c => by simp only [stripTree, GoNode.ok, ok_strip cfg c]
+  | .poslook c => by simp only [stripTree, GoNode.ok, ok_strip cfg c]
+  | .neglook c => by simp only [stripTree, GoNode.ok, ok_strip cfg c]
+  | .atomic c => by simp only [stripTree, GoNode.ok, ok_strip cfg c]
+  | .backrefcond1 _ y => by simp only [stripTree, GoNode.ok, ok_strip cfg y]
+  | .backrefcond2 _ y n => by simp only [stripTree, GoNode.ok, ok_strip cfg y, ok_strip cfg n]
+  | .exprcond2 c y => by simp only [stripTree, GoNode.ok, ok_strip cfg c, ok_strip cfg y]
+  | .exprcond3 c y n => by simp only [stripTree, GoNode.ok, ok_strip cfg c, ok_strip cfg y, ok_strip cfg n]
+  | .other _ => rfl
+theorem okList_strip (cfg : Cfg) : ∀ cs : List GoNode, okList (stripList cfg cs) = okList cs
+  | [] => rfl
+  | c :: cs => by simp only [stripList, okList, ok_strip cfg c, okList_strip cfg cs]
+end
+
+mutual
+theorem boundsOk_strip (cfg : Cfg) : ∀ n : GoNode, boundsOk (stripTree cfg n) = boundsOk n
+  | .empty => rfl
+  | .bare _ => rfl
+  | .char _ _ _ _ => rfl
+  | .set _ _ _ => rfl
+  | .multi _ _ _ => rfl
+  | .ref _ _ _ => rfl
+  | .charloop _ _ _ _ _ _ => rfl
+  | .setloop _ _ _ _ _ _ => rfl
+  | .concat cs => by simp only [stripTree, boundsOk, boundsOkList_strip cfg cs]
+  | .alt cs => by simp only [stripTree, boundsOk, boundsOkList_strip cfg cs]
+  | .loop _ _ _ c => by simp only [stripTree, boundsOk, boundsOk_strip cfg c]
+  | .capture m n c => by simp only [stripTree]; split <;> simp only [boundsOk, boundsOk_strip cfg c]
+  | .group c => by simp only [stripTree, boundsOk, boundsOk_strip cfg c]
+  | .poslook c => by simp only [stripTree, boundsOk, boundsOk_strip cfg c]
+  | .neglook c => by simp only [stripTree, boundsOk, boundsOk_strip cfg c]
+  | .atomic c => by simp only [stripTree, boundsOk, boundsOk_strip cfg c]
+  | .backrefcond1 _ y => by simp only [stripTree, boundsOk, boundsOk_strip cfg y]
+  | .backrefcond2 _ y n => by simp only [stripTree, boundsOk, boundsOk_strip cfg y, boundsOk_strip cfg n]
+  | .exprcond2 c y => by simp only [stripTree, boundsOk, boundsOk_strip cfg c, boundsOk_strip cfg y]
+  | .exprcond3 c y n => by
+    simp only [stripTree, boundsOk, boundsOk_strip cfg c, boundsOk_strip cfg y, boundsOk_strip cfg n]
+  | .other _ => rfl
+theorem boundsOkList_strip (cfg : Cfg) : ∀ cs : List GoNode, boundsOkList (stripList cfg cs) = boundsOkList cs
+  | [] => rfl
+  | c :: cs => by simp only [stripList, boundsOkList, boundsOk_strip cfg c, boundsOkList_strip cfg cs]
+end
+
+mutual
+/-- a stripped capture no longer names a slot, so `capsOk` (for ANY slot map `cfg'`) can only get easier -/
+theorem capsOk_strip (cfg cfg' : Cfg) (N : Nat) : ∀ n : GoNode, capsOk cfg' N n = true → capsOk cfg' N (stripTree cfg n) = true
+  | .empty, _ => rfl
+  | .bare _, _ => rfl
+  | .char _ _ _ _, _ => rfl
+  | .set _ _ _, _ => rfl
+  | .multi _ _ _, _ => rfl
+  | .ref _ _ _, h => h
+  | .charloop _ _ _ _ _ _, _ => rfl
+  | .setloop _ _ _ _ _ _, _ => rfl
+  | .concat cs, h => by simp only [stripTree, capsOk] at h ⊢; exact capsOkList_strip cfg cfg' N cs h
+  | .alt cs, h => by simp only [stripTree, capsOk] at h ⊢; exact capsOkList_strip cfg cfg' N cs h
+  | .loop _ _ _ c, h => by simp only [stripTree, capsOk] at h ⊢; exact capsOk_strip cfg cfg' N c h
+  | .capture m n c, h => by
+    simp only [capsOk, Bool.and_eq_true] at h
+    simp only [stripTree]
+    split
+    · simp only [capsOk, Bool.and_eq_true]; exact ⟨h.1, capsOk_strip cfg cfg' N c h.2⟩
+    · simp only [capsOk]; exact capsOk_strip cfg cfg' N c h.2
+  | .group c, h => by simp only [stripTree, capsOk] at h ⊢; exact capsOk_strip cfg cfg' N c h
+  | .poslook c, h => by simp only [stripTree, capsOk] at h ⊢; exact capsOk_strip cfg cfg' N c h
+  | .neglook c, h => by simp only [stripTree, capsOk] at h ⊢; exact capsOk_strip cfg cfg' N c h
+  | .atomic c, h => by simp only [stripTree, capsOk] at h ⊢; exact capsOk_strip cfg cfg' N c h
+  | .backrefcond1 _ y, h => by
+    simp only [stripTree, capsOk, Bool.and_eq_true] at h ⊢; exact ⟨h.1, capsOk_strip cfg cfg' N y h.2⟩
+  | .backrefcond2 _ y n, h => by
+    simp only [stripTree, capsOk, Bool.and_eq_true] at h ⊢
+    exact ⟨⟨h.1.1, capsOk_strip cfg cfg' N y h.1.2⟩, capsOk_strip cfg cfg' N n h.2⟩
+  | .exprcond2 c y, h => by
+    simp only [stripTree, capsOk, Bool.and_eq_true] at h ⊢
+    exact ⟨capsOk_strip cfg cfg' N c h.1, capsOk_strip cfg cfg' N y h.2⟩
+  | .exprcond3 c y n, h => by
+    simp only [stripTree, capsOk, Bool.and_eq_true] at h ⊢
+    exact ⟨⟨capsOk_strip cfg cfg' N c h.1.1, capsOk_strip cfg cfg' N y h.1.2⟩, capsOk_strip cfg cfg' N n h.2⟩
+  | .other _, _ => rfl
+theorem capsOkList_strip (cfg cfg' : Cfg) (N : Nat) : ∀ cs : List GoNode, capsOkList cfg' N cs = true →
+    capsOkList cfg' N (stripList cfg cs) = true
+  | [], _ => rfl
+  | c :: cs, h => by
+    simp only [stripList, capsOkList, Bool.and_eq_true] at h ⊢
+    exact ⟨capsOk_strip cfg cfg' N c h.1, capsOkList_strip cfg cfg' N cs h.2⟩
+end
+
+/-- `treeWf` survives stripping (whatever the writer configuration that decides which captures go) -/
+theorem treeWf_strip (cfg : Cfg) (ti : TreeInfo) (t : GoNode) (h : treeWf ti t = true) : treeWf ti (stripTree cfg t) = true := by
+  simp only [treeWf, Bool.and_eq_true] at h ⊢
+  exact ⟨⟨by rw [ok_strip]; exact h.1.1, capsOk_strip cfg _ _ t h.1.2⟩, by rw [boundsOk_strip]; exact h.2⟩
+
+/-! ## the tables do not depend on the configuration nor on the offset -/
+
+mutual
+theorem emitNode_tables (cfg cfg' : Cfg) : ∀ (n : GoNode) (a a' : Nat) (tb : Tables),
+    (emitNode cfg a tb n).2 = (emitNode cfg' a' tb n).2
+  | .empty, _, _, _ => rfl
+  | .bare _, _, _, _ => rfl
+  | .char _ _ _ _, _, _, _ => rfl
+  | .set _ _ _, _, _, _ => rfl
+  | .multi _ _ _, _, _, _ => rfl
+  | .ref _ _ _, _, _, _ => rfl
+  | .charloop _ _ _ _ _ _, _, _, _ => rfl
+  | .setloop _ _ _ _ _ _, _, _, _ => rfl
+  | .concat cs, a, a', tb => by simp only [emitNode]; exact emitList_tables cfg cfg' cs a a' tb
+  | .alt cs, a, a', tb => by simp only [emitNode]; exact emitAlt_tables cfg cfg' cs a a' _ _ tb
+  | .loop _ _ _ c, a, a', tb => by simp only [emitNode]; exact emitNode_tables cfg cfg' c _ _ tb
+  | .capture m n c, a, a', tb => by
+    simp only [emitNode]
+    split <;> split <;> exact emitNode_tables cfg cfg' c _ _ tb
+  | .group c, a, a', tb => by simp only [emitNode]; exact emitNode_tables cfg cfg' c _ _ tb
+  | .poslook c, a, a', tb => by simp only [emitNode]; exact emitNode_tables cfg cfg' c _ _ tb
+  | .neglook c, a, a', tb => by simp only [emitNode]; exact emitNode_tables cfg cfg' c _ _ tb
+  | .atomic c, a, a', tb => by simp only [emitNode]; exact emitNode_tables cfg cfg' c _ _ tb
+  | .backrefcond1 _ y, a, a', tb => by simp only [emitNode]; exact emitNode_tables cfg cfg' y _ _ tb
+  | .backrefcond2 _ y n, a, a', tb => by
+    simp only [emitNode]
+    rw [emitNode_tables cfg cfg' y (a + 6) (a' + 6) tb]
+    exact emitNode_tables cfg cfg' n _ _ _
+  | .exprcond2 c y, a, a', tb => by
+    simp only [emitNode]
+    rw [emitNode_tables cfg cfg' c (a + 4) (a' + 4) tb]
+    exact emitNode_tables cfg cfg' y _ _ _
+  | .exprcond3 c y n, a, a', tb => by
+    simp only [emitNode]
+    rw [emitNode_tables cfg cfg' c (a + 4) (a' + 4) tb,
+      emitNode_tables cfg cfg' y (a + 4 + size cfg c + 2) (a' + 4 + size cfg' c + 2) _]
+    exact emitNode_tables cfg cfg' n _ _ _
+  | .other _, _, _, _ => rfl
+theorem emitList_tables (cfg cfg' : Cfg) : ∀ (cs : List GoNode) (a a' : Nat) (tb : Tables),
+    (emitList cfg a tb cs).2 = (emitList cfg' a' tb cs).2
+  | [], _, _, _ => rfl
+  | c :: cs, a, a', tb => by
+    simp only [emitList]
+    rw [emitNode_tables cfg cfg' c a a' tb]
+    exact emitList_tables cfg cfg' cs _ _ _
+theorem emitAlt_tables (cfg cfg' : Cfg) : ∀ (cs : List GoNode) (a a' fin fin' : Nat) (tb : Tables),
+    (emitAlt cfg a fin tb cs).2 = (emitAlt cfg' a' fin' tb cs).2
+  | [], _, _, _, _, _ => rfl
+  | c :: cs, a, a', fin, fin', tb => by
+    simp only [emitAlt]
+    split
+    · exact emitNode_tables cfg cfg' c _ _ tb
+    · simp only
+      rw [emitNode_tables cfg cfg' c (a + 2) (a' + 2) tb]
+      exact emitAlt_tables cfg cfg' cs _ _ _ _ _
+end
+
+theorem codeFromTree_tables (cfg cfg' : Cfg) (t : GoNode) : (codeFromTree cfg t).2 = (codeFromTree cfg' t).2 := by
+  simp only [codeFromTree]; exact emitNode_tables cfg cfg' t 2 2 _
+
 end RegexVerif.Compile
